@@ -22,6 +22,13 @@ def jobs(tier, seed):
                   bound="one ares_open_connection (%s, %s; buffer/bind/callback options symbolic) with every socket-layer "
                         "call failing or not, EINTR/EINPROGRESS on connect, and any single allocation failing; then one "
                         "ares_close_connection" % ("TCP" if tcp else "UDP", famname)))
+    for fam, famname in (("AF_INET", "v4"), ("AF_INET6", "v6"), ("AF_UNIX", "other")):
+        J.append(dict(name="src_probe_%s" % famname, harness="src_probe.c", defines=["-DFAMILY=%s" % fam],
+                      real=LIB, support=SUP, backend="cadical", timeout=600, unwind=18,
+                      witnesses=["end"] + (["other family"] if famname == "other" else
+                                           ["source found", "connect failed", "getsockname failed", "socket failed"]),
+                      bound="one find_src_addr (RFC 6724 source probe of ares_sortaddrinfo) for an %s destination with socket(), "
+                            "connect() (incl. EINTR retry / EINPROGRESS) and getsockname() each failing or not" % famname))
     shapes = [("", None), ("u", None), ("t", None), ("ut", None), ("u", "t"), ("ut", "u")] + ([("uut", "ut")] if tier != "quick" else [])
     for s0, s1 in shapes:
         J.append(dict(name="fds_getsock_%s_%s" % (s0 or "none", s1 if s1 is not None else "x"), harness="fds.c",
